@@ -24,7 +24,7 @@ for m in sel:
         outs = []
         for p in [m['prop']]:
             t = time.time()
-            r = subprocess.run([os.path.join(ROOT, 'check'), p, tier], capture_output=True, text=True)
+            r = subprocess.run([os.path.join(ROOT, 'check'), p, tier], capture_output=True, text=True, errors='replace')
             v = [l for l in r.stdout.splitlines() if l.startswith('VIOLATION')]
             outs.append('%s exit=%d violations=%d %.0fs' % (p, r.returncode, len(v), time.time() - t))
             if r.returncode not in (0, 1):
